@@ -81,60 +81,74 @@ fn parse_level_6(it: &mut LexIterator) -> ParseResult {
 
 fn parse_level_5(it: &mut LexIterator) -> ParseResult {
     let start = it.start_pos("operation (5)")?;
-    let arithmetic = it.parse(&parse_level_4, "operation", start)?;
+    let mut arithmetic = it.parse(&parse_level_4, "operation", start)?;
     macro_rules! bin_op {
         ($it:expr, $fun:path, $ast:ident, $arithmetic:expr, $msg:expr) => {{
             inner_bin_op!($it, start, $fun, $ast, $arithmetic, $msg)
         }};
     }
 
-    it.peek(
-        &|it, lex| match lex.token {
-            Token::BLShift => bin_op!(
-                it,
-                parse_level_5,
-                BLShift,
-                arithmetic.clone(),
-                "bitwise left shift"
-            ),
-            Token::BRShift => bin_op!(
-                it,
-                parse_level_5,
-                BRShift,
-                arithmetic.clone(),
-                "bitwise right shift"
-            ),
-            Token::BAnd => bin_op!(it, parse_level_5, BAnd, arithmetic.clone(), "bitwise and"),
-            Token::BOr => bin_op!(it, parse_level_5, BOr, arithmetic.clone(), "bitwise or"),
-            Token::BXOr => bin_op!(it, parse_level_5, BXOr, arithmetic.clone(), "bitwise xor"),
-            _ => Ok(arithmetic.clone()),
-        },
-        Ok(arithmetic.clone()),
-    )
+    // Operators of one level group to the left: the right operand is of the next level
+    while it.peek_if(&|lex| {
+        matches!(
+            lex.token,
+            Token::BLShift | Token::BRShift | Token::BAnd | Token::BOr | Token::BXOr
+        )
+    }) {
+        arithmetic = it.peek(
+            &|it, lex| match lex.token {
+                Token::BLShift => bin_op!(
+                    it,
+                    parse_level_4,
+                    BLShift,
+                    arithmetic.clone(),
+                    "bitwise left shift"
+                ),
+                Token::BRShift => bin_op!(
+                    it,
+                    parse_level_4,
+                    BRShift,
+                    arithmetic.clone(),
+                    "bitwise right shift"
+                ),
+                Token::BAnd => bin_op!(it, parse_level_4, BAnd, arithmetic.clone(), "bitwise and"),
+                Token::BOr => bin_op!(it, parse_level_4, BOr, arithmetic.clone(), "bitwise or"),
+                Token::BXOr => bin_op!(it, parse_level_4, BXOr, arithmetic.clone(), "bitwise xor"),
+                _ => Ok(arithmetic.clone()),
+            },
+            Ok(arithmetic.clone()),
+        )?;
+    }
+
+    Ok(arithmetic)
 }
 
 fn parse_level_4(it: &mut LexIterator) -> ParseResult {
     let start = it.start_pos("operation (4)")?;
-    let arithmetic = it.parse(&parse_level_3, "operation", start)?;
+    let mut arithmetic = it.parse(&parse_level_3, "operation", start)?;
     macro_rules! bin_op {
         ($it:expr, $fun:path, $ast:ident, $arithmetic:expr, $msg:expr) => {{
             inner_bin_op!($it, start, $fun, $ast, $arithmetic, $msg)
         }};
     }
 
-    it.peek(
-        &|it, lex| match lex.token {
-            Token::Add => bin_op!(it, parse_level_4, Add, arithmetic.clone(), "add"),
-            Token::Sub => bin_op!(it, parse_level_4, Sub, arithmetic.clone(), "sub"),
-            _ => Ok(arithmetic.clone()),
-        },
-        Ok(arithmetic.clone()),
-    )
+    while it.peek_if(&|lex| matches!(lex.token, Token::Add | Token::Sub)) {
+        arithmetic = it.peek(
+            &|it, lex| match lex.token {
+                Token::Add => bin_op!(it, parse_level_3, Add, arithmetic.clone(), "add"),
+                Token::Sub => bin_op!(it, parse_level_3, Sub, arithmetic.clone(), "sub"),
+                _ => Ok(arithmetic.clone()),
+            },
+            Ok(arithmetic.clone()),
+        )?;
+    }
+
+    Ok(arithmetic)
 }
 
 fn parse_level_3(it: &mut LexIterator) -> ParseResult {
     let start = it.start_pos("operation (3)")?;
-    let arithmetic = it.parse(&parse_level_2, "operation", start)?;
+    let mut arithmetic = it.parse(&parse_level_2, "operation", start)?;
     macro_rules! bin_op {
         ($it:expr, $fun:path, $ast:ident, $arithmetic:expr, $msg:expr) => {{
             inner_bin_op!($it, start, $fun, $ast, $arithmetic, $msg)
@@ -163,12 +177,26 @@ fn parse_level_3(it: &mut LexIterator) -> ParseResult {
         }};
     }
 
+    while it.peek_if(&|lex| {
+        matches!(
+            lex.token,
+            Token::Mul | Token::Div | Token::FDiv | Token::Mod
+        )
+    }) {
+        arithmetic = it.peek(
+            &|it, lex| match lex.token {
+                Token::Mul => bin_op!(it, parse_level_2, Mul, arithmetic.clone(), "mul"),
+                Token::Div => bin_op!(it, parse_level_2, Div, arithmetic.clone(), "div"),
+                Token::FDiv => bin_op!(it, parse_level_2, FDiv, arithmetic.clone(), "floor div"),
+                Token::Mod => bin_op!(it, parse_level_2, Mod, arithmetic.clone(), "mod"),
+                _ => Ok(arithmetic.clone()),
+            },
+            Ok(arithmetic.clone()),
+        )?;
+    }
+
     it.peek(
         &|it, lex| match lex.token {
-            Token::Mul => bin_op!(it, parse_level_3, Mul, arithmetic.clone(), "mul"),
-            Token::Div => bin_op!(it, parse_level_3, Div, arithmetic.clone(), "div"),
-            Token::FDiv => bin_op!(it, parse_level_3, FDiv, arithmetic.clone(), "floor div"),
-            Token::Mod => bin_op!(it, parse_level_3, Mod, arithmetic.clone(), "mod"),
             Token::Range => match_range_slice!(it, Range, false, Range, "range"),
             Token::RangeIncl => match_range_slice!(it, RangeIncl, true, Range, "range"),
             Token::Slice => match_range_slice!(it, Slice, false, Slice, "range"),
